@@ -134,9 +134,20 @@ type cConn struct {
 }
 
 type cScenario struct {
-	Conns []*cConn
-	Focus string
+	Conns   []*cConn
+	Focus   string
+	OutName string // name of the output directory ("" = out)
 }
+
+func (sc *cScenario) outName() string {
+	if sc.OutName == "" {
+		return "out"
+	}
+	return sc.OutName
+}
+
+// outNames: legal directory names; the suffixes the recorder itself uses and printf verbs among them.
+var outNames = []string{"out", "out", "out", "cptv.temp", "rec.temp.d", "my recordings", "100%full %d%s", "x.cptv", "日本 ß"}
 
 func tomlQuote(s string) string {
 	var b strings.Builder
@@ -677,7 +688,7 @@ func execPlain(sc *cScenario) *cResult {
 	}
 	defer os.RemoveAll(root)
 	confDir := filepath.Join(root, "etc")
-	outDir := filepath.Join(root, "out")
+	outDir := filepath.Join(root, sc.outName())
 	os.MkdirAll(confDir, 0755)
 	os.MkdirAll(outDir, 0755)
 	res.OutDir = outDir
@@ -894,6 +905,7 @@ type refRec struct {
 	Thresh  uint16
 	StartEv int
 	Closed  bool
+	ByBad   bool // closed by a bad frame
 }
 
 // reference computes the recordings the settings and the byte stream call for,
@@ -958,7 +970,8 @@ func reference(cn *cConn, procTimes []time.Time, delivered int) ([]refRec, *zz.T
 	for s := 0; s < 3; s++ {
 		recs, _ := tr.Protocol(s)
 		for _, rc := range recs {
-			out = append(out, refRec{Sink: s, IDs: rc.IDs, Bg: rc.Bg, Thresh: rc.Thresh, StartEv: rc.StartEv, Closed: rc.StopEv >= 0})
+			out = append(out, refRec{Sink: s, IDs: rc.IDs, Bg: rc.Bg, Thresh: rc.Thresh, StartEv: rc.StartEv, Closed: rc.StopEv >= 0,
+				ByBad: rc.StopEv >= 0 && rc.StopEv < len(tr.Ev) && tr.Ev[rc.StopEv].ErrKind == 'b'})
 		}
 	}
 	return out, tr
@@ -1106,6 +1119,7 @@ func firstOr(v []int) int {
 
 func runCE2E(r *verifsim.Run) {
 	sc := &cScenario{Focus: r.Prop}
+	sc.OutName = outNames[r.Draw(len(outNames))]
 	nConn := r.OneOf(1, 1, 2)
 	id := 0
 	for i := 0; i < nConn; i++ {
@@ -1398,6 +1412,14 @@ func checkE2E(r *verifsim.Run, sc *cScenario, res *cResult) {
 				}
 				r.Violate("C04", "C04.files", why, "window %s-%s, min-disk-space-mb %d: the output directory holds %d finished recordings %v; starts allowed only with the window open and enough disk space call for %d %v", c0.WinStart, c0.WinStop, c0.MinDiskMB, len(act), names, len(exp), wants)
 			}
+			if len(act) < len(exp) {
+				for _, e := range exp {
+					if e.rec.ByBad && e.rec.Sink == zz.SinkMotion {
+						r.Violate("C13", "C13.closed-file", dir, "a bad frame ended the %s recording that starts with frame id %d, but directory %s holds %d finished recordings %v where %d %v are called for (a bad frame ends the recording in progress with a cleanly closed file)", zz.SinkName[e.rec.Sink], firstOr(e.rec.IDs), dir, len(act), names, len(exp), wants)
+						break
+					}
+				}
+			}
 			if dir == "." {
 				r.Violate("C14", "C14.delivery", "files", "directory %s holds %d finished recordings, expected %d", dir, len(act), len(exp))
 				nTest := 0
@@ -1688,7 +1710,7 @@ func execSched(r *verifsim.Run, sc *cScenario, opt cSchedOpts) *cSchedResult {
 		defer os.RemoveAll(root)
 	}
 	confDir := filepath.Join(root, "etc")
-	outDir := filepath.Join(root, "out")
+	outDir := filepath.Join(root, sc.outName())
 	os.MkdirAll(confDir, 0755)
 	os.MkdirAll(outDir, 0755)
 	res.OutDir = outDir
